@@ -22,12 +22,12 @@ def ts(xs):
     return "{" + ", ".join(json.dumps(x) if isinstance(x, str) else str(x) for x in xs) + "}"
 
 
-def write_cfg(name, fams, rids, reasons, spec, invs, dev=()):
+def write_cfg(name, fams, rids, reasons, spec, invs, dev=(), comms="{FALSE}"):
     d = os.path.join(vf.WORK, "cfg")
     os.makedirs(d, exist_ok=True)
     p = os.path.join(d, name)
     with open(p, "w") as f:
-        f.write(f"CONSTANTS\n  Fam = {ts(fams)}\n  RouteIds = {ts(rids)}\n  Reasons = {ts(reasons)}\n  Dev = {ts(dev)}\n"
+        f.write(f"CONSTANTS\n  Fam = {ts(fams)}\n  RouteIds = {ts(rids)}\n  Reasons = {ts(reasons)}\n  Comms = {comms}\n  Dev = {ts(dev)}\n"
                 f"SPECIFICATION {spec}\nINVARIANTS {' '.join(invs)}\nCHECK_DEADLOCK FALSE\n")
     return p
 
